@@ -77,6 +77,37 @@ BINOPS = {
 }
 
 # expressions that need at least program version k (used to build native failures F-A)
+def _badabi(which: str):
+    from typing import Literal
+    from pyteal import abi
+
+    if which == "bigtuple":
+        # static head of 65536 + 2 bytes: the uint16 tail offset of the dynamic member overflows
+        # AFTER the helper storage of the tuple encoder was allocated
+        big = abi.make(abi.StaticArray[abi.Byte, Literal[65536]])
+        rec = abi.make(abi.Tuple2[abi.StaticArray[abi.Byte, Literal[65536]], abi.String])
+        return rec.set(big, abi.String())
+    if which == "uintover":
+        return abi.Uint8().set(300)
+    if which == "arrlen":
+        return abi.make(abi.StaticArray[abi.Uint64, Literal[3]]).set([abi.Uint64(), abi.Uint64()])
+    if which == "arity":
+        return abi.make(abi.Tuple2[abi.Uint64, abi.String]).set(abi.Uint64())
+    if which == "elemtype":
+        return abi.make(abi.Tuple2[abi.Uint64, abi.String]).set(abi.Uint64(), abi.Uint64())
+    if which == "dynelem":
+        return abi.make(abi.DynamicArray[abi.String]).set([abi.String(), abi.Uint64()])
+    if which == "addr":
+        return abi.Address().set("short")
+    if which == "boolarr":
+        return abi.make(abi.StaticArray[abi.Bool, Literal[2]]).set([abi.Bool()])
+    if which == "idx":
+        return abi.make(abi.StaticArray[abi.Uint64, Literal[3]])[5].use(lambda v: pt.Pop(v.get()))
+    if which == "tupidx":
+        return abi.make(abi.Tuple2[abi.Uint64, abi.String])[2].use(lambda v: pt.Pop(v.encode()))
+    raise KeyError(which)
+
+
 def _needv(k: int, mode: str):
     if k <= 2:
         return pt.Int(1)
@@ -256,6 +287,10 @@ class Ctx:
         if k == "badtype":
             # well-formed data, ill-typed program: PyTeal raises TealTypeError while building
             return pt.Add(pt.Int(1), pt.Bytes("x"))
+        if k == "badabi":
+            # well-formed data, an ABI construction PyTeal rejects while building (TealInputError
+            # raised part-way through an encode/set/index helper)
+            return _badabi(e[1])
         if k == "encode":
             return self.abis[e[1]].encode()
         if k == "msel":
